@@ -121,7 +121,7 @@ std::string plan_to_json(const Plan& p, bool) {
       c["username"] = jstr(cc.username); c["password"] = jstr(cc.password);
       if (cc.will) { json::object wj; wj["topic"] = jstr(cc.will->topic); wj["payload"] = jstr(cc.will->payload); wj["qos"] = cc.will->qos; wj["retain"] = cc.will->retain; wj["props"] = props_j(cc.will->props); c["will"] = wj; }
       if (cc.keep_alive) c["keep_alive"] = *cc.keep_alive;
-      c["connect_props"] = props_j(cc.connect_props); c["use_authenticator"] = cc.use_authenticator; c["auth_method"] = cc.auth_method;
+      c["connect_props"] = props_j(cc.connect_props); c["use_authenticator"] = cc.use_authenticator; c["auth_method"] = cc.auth_method; c["auth_posted"] = cc.auth_posted;
       kn["client"] = c; }
     { json::array hs; for (auto& h : k.hosts) { json::object o; o["name"] = h.name; o["port"] = h.port; o["n_endpoints"] = h.n_endpoints; o["dead_mask"] = h.dead_mask; hs.push_back(o); } kn["hosts"] = hs; }
     { json::object b; const auto& bk = k.broker;
@@ -158,7 +158,7 @@ bool plan_from_json(const std::string& text, Plan& out, std::string* err) {
           cc.client_id = ustr(c.at("client_id")); cc.username = ustr(c.at("username")); cc.password = ustr(c.at("password"));
           if (c.contains("will")) { auto& wj = c.at("will").as_object(); mq::Will wl; wl.topic = ustr(wj.at("topic")); wl.payload = ustr(wj.at("payload")); wl.qos = (uint8_t)wj.at("qos").to_number<int>(); wl.retain = wj.at("retain").as_bool(); wl.props = props_u(wj.at("props")); cc.will = wl; }
           if (c.contains("keep_alive")) cc.keep_alive = (uint16_t)c.at("keep_alive").to_number<int>();
-          cc.connect_props = props_u(c.at("connect_props")); cc.use_authenticator = c.at("use_authenticator").as_bool(); cc.auth_method = c.at("auth_method").as_string().c_str(); }
+          cc.connect_props = props_u(c.at("connect_props")); cc.use_authenticator = c.at("use_authenticator").as_bool(); cc.auth_method = c.at("auth_method").as_string().c_str(); if (c.contains("auth_posted")) cc.auth_posted = c.at("auth_posted").as_bool(); }
         for (auto& e : kn.at("hosts").as_array()) { auto& o = e.as_object(); HostCfg h; h.name = o.at("name").as_string().c_str(); h.port = (int)o.at("port").to_number<int>(); h.n_endpoints = (int)o.at("n_endpoints").to_number<int>(); h.dead_mask = (int)o.at("dead_mask").to_number<int>(); k.hosts.push_back(h); }
         { auto& b = kn.at("broker").as_object(); auto& bk = k.broker;
           bk.ack_delay_max = b.at("ack_delay_max").to_number<int64_t>(); bk.ack_zero_p = b.at("ack_zero_p").to_number<double>(); bk.ack_err_p = b.at("ack_err_p").to_number<double>();
